@@ -14,8 +14,11 @@ reaction SMILES and back) is *not* proved: it rests on the run-time corresponden
 model and the implementation that the differential driver checks.  What *is* proved of that clause
 is its SynKit-side graph part (last section of this file): the two graphs `its_to_rsmi` hands to
 RDKit's SMILES writer are the original pair up to folding spectator hydrogens into counts
-(`implicitH_preserves_totalH`, `implicitH_keeps_preserved`, `implicitH_removes_only_H`,
-`its_to_rsmi_graph_part`, `its_to_rsmi_totalH`, `its_to_rsmi_skeleton`).
+(`implicitH_preserves_totalH`, `implicitH_keeps`, `implicitH_keeps_preserved`,
+`implicitHydrogen_keeps_free_hydrogen`, `implicitH_removes_only_H`,
+`its_to_rsmi_graph_part`, `its_to_rsmi_totalH`, `its_to_rsmi_skeleton`).  The model of
+`implicit_hydrogen` follows the F29 repair (draft fix 0022): a hydrogen without a non-hydrogen
+neighbour is never removed.
 -/
 namespace SynKit.ITS
 open SynKit SynKit.ITS.C01L
@@ -312,44 +315,59 @@ definitions in `SynKitModel/RsmiGraph.lean`; the driver runs them (`its.rsmiGrap
 `implicit_hydrogen` / `GraphToMol.graph_to_mol` on every run. -/
 
 /-- **C01, RDKit clause, graph part (1): `implicit_hydrogen` keeps the total hydrogen count.**
-`G` a simple graph; guard `FoldGuard G keep`: every hydrogen node that is *not* preserved
-(`element == "H"` and `atom_map ∉ keep`) carries no hydrogen count of its own and has exactly one
-heavy neighbour.  (No typing guard is needed: `HTyped` of C10 is not used.  C10's `HValence`
-demands *at most* one heavy neighbour of *every* hydrogen; here preserved hydrogens are free and
-removed ones need *exactly* one — see `foldGuard_of_HValence` and the `H2` example below.) -/
+`G` a simple graph; guard `FoldGuard G keep`: every hydrogen node that is *removed* — not preserved
+(`element == "H"` and `atom_map ∉ keep`) and with at least one heavy neighbour — carries no
+hydrogen count of its own and has exactly one heavy neighbour.  Hydrogens without heavy neighbour
+(free H, H+, H-, H2) need no guard since the F29 repair: they stay.  (No typing guard is needed:
+`HTyped` of C10 is not used.  C10's `HValence` implies the guard, see `foldGuard_of_HValence`.) -/
 theorem implicitH_preserves_totalH (G : LGraph) (keep : List Nat) (hwf : G.WF)
     (hg : FoldGuard G keep) : totalH (implicitHydrogen G keep) = totalH G :=
   totalH_implicitH G hwf keep hg
 
-/-- Relation to the C10 guard: `HValence` plus "no removed hydrogen is free-standing or bonded to
-hydrogens only" gives `FoldGuard`. -/
-theorem foldGuard_of_HValence (G : LGraph) (keep : List Nat) (hv : HValence G)
-    (h1 : ∀ p ∈ G.nodes, isH p.2 = true → keepsH keep p.2 = false → heavyNbrs G p.1 ≠ 0) :
-    FoldGuard G keep := by
-  intro p hp hH hk
-  have := hv p hp hH
-  have := h1 p hp hH hk
-  exact ⟨(hv p hp hH).1, by omega⟩
+/-- (1) under the guard as it had to be stated before the F29 repair (every non-preserved
+hydrogen, free or not, has exactly one heavy neighbour): a corollary of the statement above. -/
+theorem implicitH_preserves_totalH_of_strict (G : LGraph) (keep : List Nat) (hwf : G.WF)
+    (hg : FoldGuardStrict G keep) : totalH (implicitHydrogen G keep) = totalH G :=
+  implicitH_preserves_totalH G keep hwf (foldGuard_of_strict G keep hg)
 
-/-- **C01, RDKit clause, graph part (2): what `implicit_hydrogen` keeps.**  Every heavy atom and
-every preserved hydrogen of `G` is a node of the result; all its attributes other than `hcount`
-(in particular `element`, `charge`, `atom_map`, `aromatic`) are unchanged, a preserved hydrogen
-keeps its whole attribute dict; every bond between two such nodes (heavy–heavy, heavy–kept
-hydrogen, kept–kept) is still there with its whole attribute dict, in particular its `order`. -/
-theorem implicitH_keeps_preserved (G : LGraph) (keep : List Nat) (hwf : G.WF) :
-    (∀ p ∈ G.nodes, (isH p.2 = false ∨ keepsH keep p.2 = true) →
+/-- Relation to the C10 guard: `HValence` (every hydrogen node carries no count and has at most one
+heavy neighbour) gives `FoldGuard` for every `keep` list.  (Before the F29 repair this needed the
+extra hypothesis that no removed hydrogen is free-standing or bonded to hydrogens only.) -/
+theorem foldGuard_of_HValence (G : LGraph) (keep : List Nat) (hv : HValence G) :
+    FoldGuard G keep := foldGuard_of_hValence G keep hv
+
+/-- (1) under C10's guard alone: for every `keep` list. -/
+theorem implicitH_preserves_totalH_of_HValence (G : LGraph) (keep : List Nat) (hwf : G.WF)
+    (hv : HValence G) : totalH (implicitHydrogen G keep) = totalH G :=
+  implicitH_preserves_totalH G keep hwf (foldGuard_of_HValence G keep hv)
+
+/-- The nodes `implicit_hydrogen(G, keep)` does not remove: heavy atoms, preserved hydrogens, and
+nodes without a heavy neighbour (free hydrogens, the atoms of H2). -/
+def KeptBy (G : LGraph) (keep : List Nat) (n : Nat) : Prop :=
+  isH (G.attrs n) = false ∨ keepsH keep (G.attrs n) = true ∨ hasHeavyNbr G n = false
+
+instance (G : LGraph) (keep : List Nat) (n : Nat) : Decidable (KeptBy G keep n) := by
+  unfold KeptBy; infer_instance
+
+/-- **C01, RDKit clause, graph part (2), general form: what `implicit_hydrogen` keeps.**  Every
+heavy atom, every preserved hydrogen and every hydrogen without heavy neighbour of `G` is a node of
+the result; all its attributes other than `hcount` (in particular `element`, `charge`, `atom_map`,
+`aromatic`) are unchanged, a hydrogen keeps its whole attribute dict; every bond between two such
+nodes (heavy–heavy, heavy–kept hydrogen, kept–kept, in particular the bond of an H2 molecule) is
+still there with its whole attribute dict, in particular its `order`. -/
+theorem implicitH_keeps (G : LGraph) (keep : List Nat) (hwf : G.WF) :
+    (∀ p ∈ G.nodes, KeptBy G keep p.1 →
       p.1 ∈ (implicitHydrogen G keep).ids ∧
       (∀ k, k ≠ "hcount" → Dict.get? ((implicitHydrogen G keep).attrs p.1) k = Dict.get? p.2 k) ∧
       (isH p.2 = true → (implicitHydrogen G keep).attrs p.1 = p.2)) ∧
-    (∀ u v, (isH (G.attrs u) = false ∨ keepsH keep (G.attrs u) = true) →
-      (isH (G.attrs v) = false ∨ keepsH keep (G.attrs v) = true) →
+    (∀ u v, KeptBy G keep u → KeptBy G keep v →
       (implicitHydrogen G keep).edge? u v = G.edge? u v) := by
   refine ⟨?_, ?_⟩
   · intro p hp hst
     have hattr := attrs_eq_of_mem G hwf.1 p hp
     have hid : p.1 ∈ G.ids := List.mem_map.2 ⟨p, hp, rfl⟩
     have hmem : p.1 ∈ (implicitHydrogen G keep).ids :=
-      (mem_implicitH_ids G hwf.1 keep p.1).2 ⟨hid, (stays_iff G hwf.1 keep p.1).2 (by rw [hattr]; exact hst)⟩
+      (mem_implicitH_ids G hwf.1 keep p.1).2 ⟨hid, (stays_iff G hwf.1 keep p.1).2 hst⟩
     refine ⟨hmem, ?_, ?_⟩
     · intro k hk
       rw [implicitH_get?_other G hwf.1 keep p.1 hmem k hk, hattr]
@@ -359,15 +377,49 @@ theorem implicitH_keeps_preserved (G : LGraph) (keep : List Nat) (hwf : G.WF) :
     rw [implicitH_edge? G hwf.1 keep u v, (stays_iff G hwf.1 keep u).2 hu, (stays_iff G hwf.1 keep v).2 hv]
     rfl
 
+/-- **C01, RDKit clause, graph part (2): what `implicit_hydrogen` keeps** (heavy atoms and
+preserved hydrogens; the statement as it stood before the F29 repair, now a corollary of
+`implicitH_keeps`).  Every heavy atom and every preserved hydrogen of `G` is a node of the result;
+all its attributes other than `hcount` are unchanged, a preserved hydrogen keeps its whole
+attribute dict; every bond between two such nodes is still there with its whole attribute dict. -/
+theorem implicitH_keeps_preserved (G : LGraph) (keep : List Nat) (hwf : G.WF) :
+    (∀ p ∈ G.nodes, (isH p.2 = false ∨ keepsH keep p.2 = true) →
+      p.1 ∈ (implicitHydrogen G keep).ids ∧
+      (∀ k, k ≠ "hcount" → Dict.get? ((implicitHydrogen G keep).attrs p.1) k = Dict.get? p.2 k) ∧
+      (isH p.2 = true → (implicitHydrogen G keep).attrs p.1 = p.2)) ∧
+    (∀ u v, (isH (G.attrs u) = false ∨ keepsH keep (G.attrs u) = true) →
+      (isH (G.attrs v) = false ∨ keepsH keep (G.attrs v) = true) →
+      (implicitHydrogen G keep).edge? u v = G.edge? u v) := by
+  have h := implicitH_keeps G keep hwf
+  have lift : ∀ n, (isH (G.attrs n) = false ∨ keepsH keep (G.attrs n) = true) → KeptBy G keep n :=
+    fun n hn => hn.elim Or.inl (fun h' => Or.inr (Or.inl h'))
+  refine ⟨fun p hp hst => h.1 p hp (lift p.1 ?_), fun u v hu hv => h.2 u v (lift u hu) (lift v hv)⟩
+  rw [attrs_eq_of_mem G hwf.1 p hp]; exact hst
+
+/-- **C01, RDKit clause, graph part (2'): the repaired behaviour (F29).**  For *every* `keep`
+list: a hydrogen node of `G` without a non-hydrogen neighbour (free H, H+, H-, an atom of H2) is a
+node of `implicit_hydrogen(G, keep)` with its whole attribute dict unchanged (element, charge,
+atom map, count, …); and a bond between two such hydrogens (H–H) is still there with its whole
+attribute dict.  No hypothesis on `keep`, on counts or on valences. -/
+theorem implicitHydrogen_keeps_free_hydrogen (G : LGraph) (keep : List Nat) (hwf : G.WF) :
+    (∀ p ∈ G.nodes, isH p.2 = true → hasHeavyNbr G p.1 = false →
+      p.1 ∈ (implicitHydrogen G keep).ids ∧ (implicitHydrogen G keep).attrs p.1 = p.2) ∧
+    (∀ u v, hasHeavyNbr G u = false → hasHeavyNbr G v = false →
+      (implicitHydrogen G keep).edge? u v = G.edge? u v) := by
+  have h := implicitH_keeps G keep hwf
+  refine ⟨fun p hp hH hf => ?_, fun u v hu hv => h.2 u v (Or.inr (Or.inr hu)) (Or.inr (Or.inr hv))⟩
+  obtain ⟨hmem, _, hattr⟩ := h.1 p hp (Or.inr (Or.inr hf))
+  exact ⟨hmem, hattr hH⟩
+
 /-- **C01, RDKit clause, graph part (3): what `implicit_hydrogen` removes.**  (a) no node is
-added; (b) a removed node is a hydrogen that is not preserved; (c) every heavy atom's count goes up
-by exactly the number of its removed neighbours (each removed hydrogen is folded into the count of
-its heavy neighbours); (d) the only bonds lost are those at removed nodes, no bond is created or
-altered. -/
+added; (b) a removed node is a hydrogen that is not preserved and has at least one heavy
+neighbour; (c) every heavy atom's count goes up by exactly the number of its removed neighbours
+(each removed hydrogen is folded into the count of its heavy neighbours); (d) the only bonds lost
+are those at removed nodes, no bond is created or altered. -/
 theorem implicitH_removes_only_H (G : LGraph) (keep : List Nat) (hwf : G.WF) :
     (∀ n, n ∈ (implicitHydrogen G keep).ids → n ∈ G.ids) ∧
     (∀ n ∈ G.ids, n ∉ (implicitHydrogen G keep).ids →
-      isH (G.attrs n) = true ∧ keepsH keep (G.attrs n) = false) ∧
+      isH (G.attrs n) = true ∧ keepsH keep (G.attrs n) = false ∧ hasHeavyNbr G n = true) ∧
     (∀ n ∈ G.ids, isH (G.attrs n) = false →
       hcnt ((implicitHydrogen G keep).attrs n) =
         hcnt (G.attrs n) +
@@ -379,8 +431,7 @@ theorem implicitH_removes_only_H (G : LGraph) (keep : List Nat) (hwf : G.WF) :
     fun n hn hH => implicitH_hcnt_heavy G hwf keep n hn hH, ?_⟩
   · intro n hn hnot
     have hst : ¬ stays G keep n = true := fun h => hnot ((mem_implicitH_ids G hwf.1 keep n).2 ⟨hn, h⟩)
-    rw [stays_iff G hwf.1 keep n, not_or] at hst
-    exact ⟨by simpa using hst.1, by simpa using hst.2⟩
+    exact (not_stays_iff G hwf.1 keep n).1 hst
   · intro u v
     rw [implicitH_edge? G hwf.1 keep u v]
     by_cases hu : u ∈ G.ids
@@ -435,8 +486,9 @@ theorem smiGraph_ids_nodup (g : LGraph) (keep : List Nat) (hn : g.ids.Nodup) :
 
 /-- **C01, RDKit clause, graph part (4), hydrogen total.**  Under C01's hypotheses and the guard
 of (1) on the original sides (needed only when the reaction centre contains a hydrogen, since
-otherwise nothing is folded), each graph handed to the SMILES writer has as many hydrogens
-(counts + explicit nodes) as the original side. -/
+otherwise nothing is folded; since the F29 repair it constrains only the hydrogens that have a
+heavy neighbour), each graph handed to the SMILES writer has as many hydrogens (counts + explicit
+nodes) as the original side. -/
 theorem its_to_rsmi_totalH (o : Opts) (G H : LGraph) (hs : SameNodes G H) (hG : MolWF G)
     (hH : MolWF H)
     (hgG : rcHydrogenMaps (construct o G H) ≠ [] → FoldGuard G (rcHydrogenMaps (construct o G H)))
@@ -454,11 +506,10 @@ theorem its_to_rsmi_totalH (o : Opts) (G H : LGraph) (hs : SameNodes G H) (hG : 
 /-- what `graph_to_smi`'s graph step keeps of a simple graph `S`, read through `MolEq`. -/
 theorem smiGraph_skeleton (S R : LGraph) (keep : List Nat) (hwf : S.WF)
     (hR : MolEq R (smiGraph S keep)) :
-    (∀ n ∈ S.ids, (isH (S.attrs n) = false ∨ keepsH keep (S.attrs n) = true) →
+    (∀ n ∈ S.ids, KeptBy S keep n →
       n ∈ R.ids ∧
       ∀ k ∈ ["element", "aromatic", "charge", "atom_map"], (R.attrs n).get k = (S.attrs n).get k) ∧
-    (∀ u v, (isH (S.attrs u) = false ∨ keepsH keep (S.attrs u) = true) →
-      (isH (S.attrs v) = false ∨ keepsH keep (S.attrs v) = true) →
+    (∀ u v, KeptBy S keep u → KeptBy S keep v →
       (R.edge? u v).map (·.get "order") = (S.edge? u v).map (·.get "order")) := by
   unfold smiGraph at hR
   split at hR
@@ -466,7 +517,7 @@ theorem smiGraph_skeleton (S R : LGraph) (keep : List Nat) (hwf : S.WF)
     refine hR.2.1 n ((hR.1 n).2 hn) k ?_
     simp only [List.mem_cons, List.not_mem_nil, or_false] at hk
     rcases hk with rfl | rfl | rfl | rfl <;> decide
-  · have hk2 := implicitH_keeps_preserved S keep hwf
+  · have hk2 := implicitH_keeps S keep hwf
     refine ⟨fun n hn hst => ?_, fun u v hu hv => ?_⟩
     · have hp := attrs_mem S n hn
       obtain ⟨hmem, hget, _⟩ := hk2.1 _ hp hst
@@ -482,19 +533,20 @@ theorem smiGraph_skeleton (S R : LGraph) (keep : List Nat) (hwf : S.WF)
     · rw [hR.2.2 u v, hk2.2 u v hu hv]
 
 /-- **C01, RDKit clause, graph part (4), skeleton.**  Under C01's hypotheses, in each graph handed
-to the SMILES writer every heavy atom and every reaction-centre hydrogen of the original side is
-present with its element, aromatic flag, charge and atom map, and every bond between two such
-atoms has its original order: heavy-atom skeleton, charges and atom maps are those of the input. -/
+to the SMILES writer every heavy atom, every reaction-centre hydrogen **and every hydrogen without
+heavy neighbour** (spectator proton, hydride, H·, H2 — `KeptBy`; this third class is new with the
+F29 repair) of the original side is present with its element, aromatic flag, charge and atom map,
+and every bond between two such atoms has its original order: heavy-atom skeleton, free hydrogens,
+charges and atom maps are those of the input. -/
 theorem its_to_rsmi_skeleton (o : Opts) (G H : LGraph) (hs : SameNodes G H) (hG : MolWF G)
     (hH : MolWF H) :
     ∀ S R : LGraph, (S = G ∧ R = (rsmiGraphs (construct o G H)).1) ∨
         (S = H ∧ R = (rsmiGraphs (construct o G H)).2) →
-      (∀ n ∈ S.ids, (isH (S.attrs n) = false ∨
-          keepsH (rcHydrogenMaps (construct o G H)) (S.attrs n) = true) →
+      (∀ n ∈ S.ids, KeptBy S (rcHydrogenMaps (construct o G H)) n →
         n ∈ R.ids ∧
         ∀ k ∈ ["element", "aromatic", "charge", "atom_map"], (R.attrs n).get k = (S.attrs n).get k) ∧
-      (∀ u v, (isH (S.attrs u) = false ∨ keepsH (rcHydrogenMaps (construct o G H)) (S.attrs u) = true) →
-        (isH (S.attrs v) = false ∨ keepsH (rcHydrogenMaps (construct o G H)) (S.attrs v) = true) →
+      (∀ u v, KeptBy S (rcHydrogenMaps (construct o G H)) u →
+        KeptBy S (rcHydrogenMaps (construct o G H)) v →
         (R.edge? u v).map (·.get "order") = (S.edge? u v).map (·.get "order")) := by
   have h := its_to_rsmi_graph_part o G H hs hG hH
   rintro S R (⟨rfl, rfl⟩ | ⟨rfl, rfl⟩)
@@ -550,28 +602,82 @@ example : totalH (rsmiGraphs (construct {} G H)).1 = totalH G ∧
     totalH (rsmiGraphs (construct {} G H)).2 = totalH H :=
   its_to_rsmi_totalH {} G H (fun _ => Iff.rfl) molWF_G molWF_H (fun _ => by decide) (fun _ => by decide)
 
-/-! ### Observed limitation (documented, not a violation)
+/-! ### Free hydrogens (F29, repaired by draft fix 0022)
 
-A hydrogen with **no heavy neighbour** whose atom map is not in `keep` is deleted without being
-counted anywhere: `implicit_hydrogen` has no atom to fold it into.  With a spectator `H2`
-(`[H:3][H:4]`) next to `[C:1][O:2]` and a `keep` list that does not name its atoms, two hydrogens
-disappear; `FoldGuard` fails, so (1) does not apply. -/
+A hydrogen with **no heavy neighbour** whose atom map is not in `keep` used to be deleted without
+being counted anywhere (`implicit_hydrogen` had no atom to fold it into).  With the repair it
+stays: with a spectator `H2` (`[H:3][H:4]`) next to `[C:1][O:2]` and a `keep` list that does not
+name its atoms, both hydrogens and their bond are kept, `FoldGuard` holds (no hydrogen is removed
+at all) and the hydrogen total is preserved. -/
 
 def GH2 : LGraph := { nodes := [atom "C" 1, atom "O" 2, atom "H" 3, atom "H" 4], edges := [bond 1 2, bond 3 4] }
 def HH2 : LGraph := { nodes := [atom "C" 1, atom "O" 2, atom "H" 3, atom "H" 4], edges := [bond 3 4] }
 
-example : GH2.WF ∧ ¬ FoldGuard GH2 [9] ∧ (implicitHydrogen GH2 [9]).ids = [1, 2] ∧
-    totalH GH2 = 2 ∧ totalH (implicitHydrogen GH2 [9]) = 0 := by decide
+example : GH2.WF ∧ FoldGuard GH2 [9] ∧ ¬ FoldGuardStrict GH2 [9] ∧
+    implicitHydrogen GH2 [9] = GH2 ∧
+    (implicitHydrogen GH2 [9]).ids = [1, 2, 3, 4] ∧
+    (implicitHydrogen GH2 [9]).edge? 3 4 = GH2.edge? 3 4 ∧
+    totalH GH2 = 2 ∧ totalH (implicitHydrogen GH2 [9]) = 2 := by decide
 
-/-- This is why `get_rc` puts every hydrogen–hydrogen bond into the reaction centre even when it
-is unchanged (`_add_hh_bonds`, property C02): in `its_to_rsmi` the `keep` list is taken from the
-reaction centre, so the atoms of a spectator `H2` *are* named, stay explicit, and nothing is lost.
-Here the `C–O` bond breaks, `H2` is a spectator, and `keep = [3, 4]`. -/
+example : totalH (implicitHydrogen GH2 [9]) = totalH GH2 :=
+  implicitH_preserves_totalH GH2 [9] (by decide) (by decide)
+
+/-- `get_rc` also puts every hydrogen–hydrogen bond into the reaction centre even when it is
+unchanged (`_add_hh_bonds`, property C02), so in `its_to_rsmi` the atoms of a spectator `H2` are
+named in `keep` anyway.  Here the `C–O` bond breaks, `H2` is a spectator, and `keep = [3, 4]`. -/
 example : rcHydrogenMaps (construct {} GH2 HH2) = [3, 4] ∧
     FoldGuard GH2 [3, 4] ∧ FoldGuard HH2 [3, 4] ∧
     (rsmiGraphs (construct {} GH2 HH2)).1.ids = [1, 2, 3, 4] ∧
     totalH (rsmiGraphs (construct {} GH2 HH2)).1 = 2 ∧
     totalH (rsmiGraphs (construct {} GH2 HH2)).2 = 2 := by decide
+
+/-! ### Non-vacuity of `implicitHydrogen_keeps_free_hydrogen`: the proton-spectator reaction
+
+`[H:1][Cl:2].[NH3:3].[H+:4]>>[H:1][NH3+:3].[Cl-:2].[H+:4]` — `H:1` moves from chlorine to
+nitrogen (reaction-centre hydrogen, `keep = [1]`), `H+:4` is a free spectator proton: no bond, atom
+map not in `keep`.  Before the repair `its_to_rsmi` dropped it on both sides. -/
+
+def atomQ (el : String) (n : Nat) (hc q : Int) : Nat × Attrs :=
+  (n, [("element", .str el), ("aromatic", .bool false), ("hcount", .num (2 * hc)), ("charge", .num (2 * q)),
+       ("atom_map", .num (2 * (n : Int)))])
+
+def GP : LGraph := { nodes := [atomQ "H" 1 0 0, atomQ "Cl" 2 0 0, atomQ "N" 3 3 0, atomQ "H" 4 0 1], edges := [bond 1 2] }
+def HP : LGraph := { nodes := [atomQ "H" 1 0 0, atomQ "Cl" 2 0 (-1), atomQ "N" 3 3 1, atomQ "H" 4 0 1], edges := [bond 1 3] }
+
+theorem molWF_GP : MolWF GP :=
+  ⟨by decide, by decide, fun e he => by
+    simp only [GP, List.mem_cons, List.not_mem_nil, or_false] at he
+    rcases he with rfl; exact ⟨2, by decide, rfl⟩⟩
+
+theorem molWF_HP : MolWF HP :=
+  ⟨by decide, by decide, fun e he => by
+    simp only [HP, List.mem_cons, List.not_mem_nil, or_false] at he
+    rcases he with rfl; exact ⟨2, by decide, rfl⟩⟩
+
+/-- hypotheses of the theorem on the example: `H+:4` is a hydrogen, not preserved, without heavy
+neighbour — and `H:1` is a hydrogen *with* a heavy neighbour (so the predicate is not trivial). -/
+example : rcHydrogenMaps (construct {} GP HP) = [1] ∧
+    isH (GP.attrs 4) = true ∧ keepsH [1] (GP.attrs 4) = false ∧ hasHeavyNbr GP 4 = false ∧
+    hasHeavyNbr GP 1 = true := by decide
+
+/-- the conclusion, through the theorem: the proton is kept with its attributes (charge +1). -/
+example : 4 ∈ (implicitHydrogen GP [1]).ids ∧ (implicitHydrogen GP [1]).attrs 4 = (atomQ "H" 4 0 1).2 :=
+  (implicitHydrogen_keeps_free_hydrogen GP [1] molWF_GP.1).1 (atomQ "H" 4 0 1) (by decide) (by decide) (by decide)
+
+/-- and by evaluation: both graphs handed to the SMILES writer contain the proton, with charge +1;
+the hydrogen totals (3 on N + H:1 + H+:4 = 5) are those of the input. -/
+example : (rsmiGraphs (construct {} GP HP)).1.ids = [1, 2, 3, 4] ∧
+    (rsmiGraphs (construct {} GP HP)).2.ids = [1, 2, 3, 4] ∧
+    ((rsmiGraphs (construct {} GP HP)).1.attrs 4).get "charge" = .num 2 ∧
+    ((rsmiGraphs (construct {} GP HP)).2.attrs 4).get "charge" = .num 2 ∧
+    FoldGuard GP [1] ∧ FoldGuard HP [1] ∧
+    totalH GP = 5 ∧ totalH (rsmiGraphs (construct {} GP HP)).1 = 5 ∧
+    totalH HP = 5 ∧ totalH (rsmiGraphs (construct {} GP HP)).2 = 5 := by decide
+
+/-- a spectator proton next to a *folded* hydrogen: `keep = [9]` names nobody, `H:1` is folded into
+`Cl:2`, `H+:4` stays. -/
+example : (implicitHydrogen GP [9]).ids = [2, 3, 4] ∧ hcnt ((implicitHydrogen GP [9]).attrs 2) = 1 ∧
+    totalH (implicitHydrogen GP [9]) = totalH GP := by decide
 
 /-- With no hydrogen in the reaction centre `keep` is empty and `graph_to_smi` does not call
 `implicit_hydrogen` at all: explicit spectator hydrogens are handed to RDKit as they are. -/
